@@ -90,6 +90,14 @@ def run(rep, tier):
             rep.broken.append("only %d one-shot decrypt functions found in %s" % (n, b.cfg.name))
         check_sites(rep, m, b.cfg.name)
         rule_compare(rep, m, b.cfg.name)
+        if b.cfg.backend != "asm":
+            # masked decryption can only invert masked / plain encryption for every length if the state keeps one share
+            # form between conversions (all lengths; the bounded shapes of D6 stop below the first long-message code path)
+            from . import rules_c10
+            ks, ds, _ms = rules_c10.effective_shares(b)
+            rep.rule("C02.D7", "masked AEAD: the state is handled by primitives of one share count between conversions (all lengths)")
+            lri = repo.lower(b, group="lib", level="O0", langs=("c",), scev=True, inline_internal=True)
+            rules_c10.rule_share_form(rep, ir.Module.load(lri.json), b.cfg.name, ks, ds, rid="C02.D7")
     rule_inverse(rep, tier)
     k = len(builds)
     rep.floor("C02.D1", 12 * k)
